@@ -153,6 +153,7 @@ func run(c *vf.Ctx) {
 	framingPart(c, u, tally)
 	limitsPart(c, u)
 	repeatPart(c, u, tally)
+	otherMessagePart(c, u, tally)
 	chainedPart(c, u, tally)
 	tally.Publish()
 	// the parameter and data blocks as objects of their own: call histories Set/Decode/Encode on ONE block object
@@ -697,6 +698,100 @@ func opNames(path []int) string {
 		s = append(s, map[int]string{opMarshal: "Marshal", opUnmarshal: "Unmarshal(first encoding)"}[o])
 	}
 	return strings.Join(s, "; ")
+}
+
+// otherMessagePart: one Message value per connection decodes every packet that arrives. A Message that has decoded
+// ANOTHER message before (another command, the other direction, other header values) decodes message B exactly as a
+// fresh Message does: same verdict, same header, a command of the same type with the same content, and the same
+// bytes when encoded again. Differential (no expected value), so the known findings of the structures cannot reach it.
+// B: every command structure, all-default and all-non-default; the earlier message: four structures of different shape.
+func otherMessagePart(c *vf.Ctx, u *refsmb.Universe, t *smbgen.Tally) {
+	type enc struct {
+		label string
+		b     []byte
+	}
+	build := func(cmd *refsmb.Cmd, full bool, mid uint16) *enc {
+		lat := refsmb.WithoutFormatVariants(cmd.Lattices(false))
+		a := cmd.Zero(lat)
+		if full {
+			a = cmd.FullAssign(lat)
+		}
+		x, err := a.Build()
+		if err != nil {
+			return nil
+		}
+		m := message.NewMessage()
+		m.Header.MID, m.Header.TID, m.Header.Status, m.Header.PIDHigh, m.Header.PIDLow = mid, ^mid, 0x05060708^uint32(mid), mid+1, mid+2
+		if cmd.Reply {
+			m.Header.Flags = 0x80
+		}
+		m.AddCommand(x)
+		var b []byte
+		if p, _, _ := vf.Try(func() { b, err = m.Marshal() }); p || err != nil {
+			return nil
+		}
+		return &enc{cmd.Name + "{" + a.Label() + "}", b}
+	}
+	var earlier []*enc
+	for _, cmd := range u.Cmds {
+		switch cmd.Name {
+		case "NegotiateResponse", "SessionSetupAndxRequest", "EchoRequest", "TransactionRequest":
+			if e := build(cmd, true, 0x7172); e != nil {
+				earlier = append(earlier, e)
+			}
+		}
+	}
+	var n int64
+	vf.Par(len(u.Cmds), func(i int) {
+		cmd := u.Cmds[i]
+		for _, full := range []bool{false, true} {
+			B := build(cmd, full, 0x0102)
+			if B == nil {
+				continue
+			}
+			fresh := message.NewMessage()
+			var ferr error
+			var fout []byte
+			var fmerr error
+			if p, _, _ := vf.Try(func() {
+				ferr = fresh.Unmarshal(append([]byte{}, B.b...))
+				if ferr == nil {
+					fout, fmerr = fresh.Marshal()
+				}
+			}); p {
+				continue // C07's
+			}
+			fdump := ""
+			if ferr == nil {
+				fdump = smbgen.Dump(fresh)
+			}
+			for _, A := range earlier {
+				used := message.NewMessage()
+				var rerr error
+				var rout []byte
+				var rmerr error
+				pn, msg, where := vf.Try(func() {
+					used.Unmarshal(append([]byte{}, A.b...))
+					rerr = used.Unmarshal(append([]byte{}, B.b...))
+					if rerr == nil {
+						rout, rmerr = used.Marshal()
+					}
+				})
+				atomic.AddInt64(&n, 1)
+				c.Case([]byte("other-message"), []byte(A.label), []byte(B.label))
+				ok := !pn && (rerr == nil) == (ferr == nil)
+				if ok && ferr == nil {
+					ok = smbgen.Dump(used) == fdump && (rmerr == nil) == (fmerr == nil) && bytes.Equal(rout, fout)
+				}
+				t.Check(cmd.Name, "C03/repeat/"+cmd.Name+"/message-that-decoded-another-message-before-decodes-like-a-fresh-one", ok, func() string {
+					return fmt.Sprintf("Message: Unmarshal(%s); Unmarshal(%s = %s): err=%v, then Marshal = %s (%v); a fresh Message: err=%v, Marshal = %s (%v); decoded state equal=%v (panic=%v %s %s)",
+						A.label, B.label, vf.HexS(B.b), rerr, vf.HexS(rout), rmerr, ferr, vf.HexS(fout), fmerr, ferr == nil && rerr == nil && smbgen.Dump(used) == fdump, pn, msg, where)
+				})
+			}
+		}
+	})
+	c.Evals(n)
+	c.Set("other_message_histories", n)
 }
 
 func repeatPart(c *vf.Ctx, u *refsmb.Universe, t *smbgen.Tally) {
